@@ -4,6 +4,7 @@ import HcProofs.Lemmas.Chunks
 import HcProofs.Lemmas.Framing
 import HcProofs.Lemmas.Characteristic
 import HcProofs.Props.C06
+import HcProofs.Lemmas.Reentrant
 /-
   C09 — what the application sets is what a controller reads, and vice versa.
   Models: HcModel/CharHttp.lean (id dispatch and response shape of GET / PUT /characteristics),
@@ -183,9 +184,47 @@ theorem pipeline_identity (C : Framing.Crypto) (hC : C.Correct) (s peer : Framin
   rw [h5]
   simp [List.map_map, Function.comp_def, Framing.payload]
 
--- non-vacuity -------------------------------------------------------------------------------------------------------
 def brightnessCfg : Config :=
   { format := .int32, perms := ⟨true, true, true, false, false⟩, min := .int 0, max := .int 100, updateOnSameValue := false, tcb := some .int }
+
+-- updates made while callbacks run --------------------------------------------------------------------------------------
+
+/-- Updates of a characteristic that arrive while the callbacks of another update of the same characteristic are running
+    (an application that corrects what a controller wrote, a value that moves on, a PUT that arrives while the
+    application's own update has not returned): for EVERY behaviour `react` of the application's callbacks, every call
+    depth and every first update (from a controller or local), a run that ends without panic either called no callback at
+    all — then nothing changed and the first update itself was a no-op — or ends in a state where the value given to the
+    LAST callback invocation is the value stored (what every getter and every GET returns), and what that invocation
+    asked for is nothing, or is already in effect (carrying it out again changes nothing). No update asked for from a
+    callback is dropped. -/
+theorem reentrant_updates_settle (react : React) (fuel : Nat) (c : Chr) (v : GVal) (fc cp : Bool)
+    (hok : (updateRe false react fuel c v fc cp).2 = .ok) :
+    let c' := (updateRe false react fuel c v fc cp).1
+    c'.cfg = c.cfg ∧
+    (c'.log.length = c.log.length → c' = c ∧ (updateValue c v fc cp).1 = c) ∧
+    (c'.log.length ≠ c.log.length → ∃ e, c'.log.getLast? = some e ∧ (c'.cfg.perms.pr = true → c'.value = e.new) ∧
+      (react e.new = none ∨ ∃ w, react e.new = some w ∧ (updateValue c' w false false).1 = c')) := by
+  obtain ⟨h1, h2, h3, h4⟩ := Lemmas.Reentrant.updateRe_spec react fuel c v fc cp hok
+  exact ⟨h1, h3, fun hne => h4 (by omega)⟩
+
+/-- The variant with a "don't recurse" flag (updates that arrive while callbacks run are ignored) does not have that
+    property: the controller writes 10, the application's callback corrects it to 20, and the run ends with 10 stored
+    although the last callback asked for 20 and carrying that out would change the value. -/
+theorem reentrant_guard_refuted :
+    let c0 : Chr := (updateValue (init brightnessCfg) (.int 5) false false).1
+    let react := reactOf [(10, 20)]
+    let r := updateRe true react 4 c0 (.int 10) true true
+    r.2 = .ok ∧ (r.1.log.getLast?.map (·.new)) = some (.int 10) ∧ react (.int 10) = some (.int 20) ∧
+    (updateValue r.1 (.int 20) false false).1.value = .int 20 ∧ r.1.value = .int 10 := by
+  refine ⟨rfl, rfl, rfl, rfl, rfl⟩
+
+-- non-vacuity -------------------------------------------------------------------------------------------------------
+/-- the same scenario on the model of the code: the run is ok, two callbacks were called and 20 is stored -/
+example :
+    let c0 : Chr := (updateValue (init brightnessCfg) (.int 5) false false).1
+    let r := updateRe false (reactOf [(10, 20)]) 4 c0 (.int 10) true true
+    r.2 = .ok ∧ r.1.value = .int 20 ∧ r.1.log.length = c0.log.length + 2 := by
+  refine ⟨rfl, rfl, rfl⟩
 example : ValidFor brightnessCfg (.int 42) := by unfold ValidFor; rfl
 example : wellFormed [.pair 1 9, .pair 1 999, .pair 1 2] = true := by decide
 
